@@ -9,9 +9,11 @@ RULE = (
     "breadth-first search over all operation sequences up to the depth bound over the alphabet "
     "{activate / deactivate global-style probe i (any order), enter / leave / leave-by-exception "
     "with-style probe or overlay j (LIFO among with-blocks, freely interleaved with global operations), "
-    "refused activation, call f, call g} on probes f>a, f>b, g>f>a, f(a)>b, f>b with a max() reduction "
-    "(which raises at completion when its window is empty) and a non-tooling overlay on "
-    "f>a; each history is replayed on a fresh world through the real API with a boring model (set of "
+    "refused activation, call f, call g, call h} in three worlds: W1 probes f>a, f>b, g>f>a, f(a)>b, f>b with "
+    "a max() reduction (which raises at completion when its window is empty) and a non-tooling overlay on "
+    "f>a; W2 f>a, f(a)>b, an Overlay.tapping block on f>a and a total probe g(c, f(b)) whose subscriber "
+    "raises when g ends; W3 f>a plus an overlay on h>e and a probe on h>d where h is permanently tooled; "
+    "each history is replayed on a fresh world through the real API with a boring model (set of "
     "active probes => expected per-probe streams) in lock-step; after every step: every active probe got "
     "exactly the expected new events, inactive probes none, instrumentation counters equal the model's, "
     "and at quiescence f and g run their original code objects, no handler collection is installed, "
@@ -26,6 +28,8 @@ ASSUMPTIONS = [
 BOUNDS = {"quick": {"depth": 5}, "thorough": {"depth": 7, "merge_audit_depth": 4}}
 
 SRC = '''
+from ptera import tooled
+
 def f(x):
     a = x + 1
     b = a * 2
@@ -34,15 +38,44 @@ def f(x):
 def g(x):
     c = f(x)
     return c
+
+@tooled
+def h(x):
+    d = x + 5
+    e = d * 3
+    return e
 '''
 
-GLOBAL_SLOTS = {0: "f > a", 1: "f > b", 2: "g > f > a", 5: "reduce:f > b"}
-WITH_SLOTS = {3: "f(a) > b", 4: "overlay:f > a"}
+# slot -> kind, selector, style (global: any order; with: LIFO among with-slots), functions it tools,
+#         whether it makes f instrumented for `a`
+SLOTS = {
+    0: ("probe", "f > a", "global", ("f",), True),
+    1: ("probe", "f > b", "global", ("f",), False),
+    2: ("probe", "g > f > a", "global", ("f", "g"), True),
+    3: ("probe", "f(a) > b", "with", ("f",), True),
+    4: ("overlay", "f > a", "with", (), False),            # non-tooling overlay: sees `a` only while instrumented
+    5: ("reduce", "f > b", "global", ("f",), False),        # max() reduction: raises at completion when empty
+    6: ("tapping", "f > a", "with", (), False),             # Overlay.tapping context manager (non-tooling)
+    7: ("raising-total", "g(c, f(b))", "global", ("f", "g"), False),  # total probe whose subscriber raises
+    8: ("overlay", "h > e", "with", (), False),             # overlay on the permanently tooled function h
+    9: ("probe", "h > d", "global", (), False),             # probe on the tooled function h
+}
+WORLDS = {
+    "W1": (0, 1, 2, 3, 4, 5),
+    "W2": (0, 3, 6, 7),
+    "W3": (0, 8, 9),
+}
 
 
 def expected_events(slot, fn, x, instrumented_a):
-    """Events slot receives from one call of fn(x)."""
+    # Events `slot` receives from one call of fn(x).
     a, b = x + 1, (x + 1) * 2
+    if fn == "h":
+        if slot == 8:
+            return [{"e": (x + 5) * 3}]
+        if slot == 9:
+            return [{"d": x + 5}]
+        return []
     if slot == 0:
         return [{"a": a}]
     if slot in (1, 5):
@@ -51,24 +84,26 @@ def expected_events(slot, fn, x, instrumented_a):
         return [{"a": a}] if fn == "g" else []
     if slot == 3:
         return [{"a": a, "b": b}]
-    if slot == 4:
+    if slot in (4, 6):
         return [{"a": a}] if instrumented_a else []
-    raise KeyError(slot)
+    return []
 
 
 class World:
     def __init__(self):
         self.ns = world.make_module(SRC)
-        self.f, self.g = self.ns["f"], self.ns["g"]
-        self.orig = {"f": self.f.__code__, "g": self.g.__code__}
+        self.f, self.g, self.h = self.ns["f"], self.ns["g"], self.ns["h"]
+        self.orig = {"f": self.f.__code__, "g": self.g.__code__, "h": self.h.__code__}
         self.globals_before = {k: v for k, v in self.ns.items()}
         self.probes = {}
-        self.streams = {i: [] for i in list(GLOBAL_SLOTS) + list(WITH_SLOTS)}
+        self.streams = {i: [] for i in SLOTS}
         self.calls = 0
 
 
 class System:
-    def __init__(self, with_bad=True):
+    def __init__(self, wname="W1", with_bad=True):
+        self.slots = WORLDS[wname]
+        self.wname = wname
         self.with_bad = with_bad
 
     # ---- model
@@ -79,17 +114,19 @@ class System:
     def enabled(self, model):
         act, wstack, calls = model
         ops = []
-        for i in GLOBAL_SLOTS:
-            ops.append(("act", i) if i not in act else ("deact", i))
-        for j in WITH_SLOTS:
-            if j not in wstack:
-                ops.append(("enter", j))
+        for i in self.slots:
+            if SLOTS[i][2] == "global":
+                ops.append(("act", i) if i not in act else ("deact", i))
+            elif i not in wstack:
+                ops.append(("enter", i))
         if wstack:
             ops.append(("leave", wstack[-1]))
             ops.append(("leave_exc", wstack[-1]))
         if self.with_bad:
             ops.append(("act_bad",))
         ops += [("call", "f"), ("call", "g")]
+        if self.wname == "W3":
+            ops.append(("call", "h"))
         return ops
 
     def step_model(self, model, op):
@@ -107,10 +144,14 @@ class System:
         if op[0] == "call":
             x = calls + 1
             active = list(act) + list(wstack)
-            inst_a = any(s in (0, 2, 3) for s in active)
+            inst_a = any(SLOTS[s][4] for s in active)
             exp = {s: expected_events(s, op[1], x, inst_a) for s in active}
-            exp = {s: e for s, e in exp.items() if e}
-            return (act, wstack, x), ("result", (x + 1) * 2, tuple(sorted((s, tuple(map(_canon, e))) for s, e in exp.items())))
+            exp = tuple(sorted((s, tuple(map(_canon, e))) for s, e in exp.items() if e))
+            if op[1] == "g" and 7 in active:
+                # the total probe's subscriber raises when g's record is published at g's exit
+                return (act, wstack, x), ("raised-call", "ZeroDivisionError", exp)
+            result = (x + 5) * 3 if op[1] == "h" else (x + 1) * 2
+            return (act, wstack, x), ("result", result, exp)
         raise KeyError(op)
 
     def model_key(self, model):
@@ -118,7 +159,7 @@ class System:
         return (act, wstack)
 
     def outcome_class(self, model):
-        return (len(model[0]), len(model[1]))
+        return (self.wname, len(model[0]), len(model[1]))
 
     # ---- implementation
     def fresh(self):
@@ -126,22 +167,24 @@ class System:
         return World()
 
     def _make(self, w, slot):
-        from ptera import probing, BaseOverlay, Immediate
+        from ptera import probing, BaseOverlay, Immediate, Overlay
         from ptera.selector import select
 
-        env = {"f": w.f, "g": w.g}
-        text = GLOBAL_SLOTS.get(slot) or WITH_SLOTS[slot]
-        if text.startswith("overlay:"):
-            sel = select(text[8:], env=env)
+        env = {"f": w.f, "g": w.g, "h": w.h}
+        kind, text = SLOTS[slot][0], SLOTS[slot][1]
+        if kind == "overlay":
+            sel = select(text, env=env)
             return BaseOverlay(Immediate(sel, trigger=lambda ev, s=slot: w.streams[s].append({k: c.value for k, c in ev.items()})))
-        if text.startswith("reduce:"):
-            # a reducing stage: max() of an empty window has no result and raises at completion
-            p = probing(text[7:], env=env)
-            p.subscribe(lambda ev, s=slot: w.streams[s].append(dict(ev)))
-            p["b"].max().subscribe(lambda v: None)
-            return p
+        if kind == "tapping":
+            return Overlay.tapping(select(text, env=env), dest=w.streams[slot])
         p = probing(text, env=env)
+        if kind == "raising-total":
+            p.subscribe(lambda ev: 1 // 0)
+            return p
         p.subscribe(lambda ev, s=slot: w.streams[s].append(dict(ev)))
+        if kind == "reduce":
+            # a reducing stage: max() of an empty window has no result and raises at completion
+            p["b"].max().subscribe(lambda v: None)
         return p
 
     def apply(self, w, op):
@@ -167,8 +210,8 @@ class System:
                 return "ok"
             if op[0] == "leave_exc":
                 e = ValueError("leaving the block by an exception")
-                w.probes.pop(op[1]).__exit__(ValueError, e, None)
-                return "ok"
+                r = w.probes.pop(op[1]).__exit__(ValueError, e, None)
+                return "ok" if not r else "swallowed-the-exception"
             if op[0] == "act_bad":
                 from ptera import probing
                 from ptera.selector import SelectorError
@@ -184,8 +227,12 @@ class System:
                 for s in w.streams.values():
                     del s[:]
                 w.calls += 1
-                fn = w.f if op[1] == "f" else w.g
-                r = fn(w.calls)
+                fn = {"f": w.f, "g": w.g, "h": w.h}[op[1]]
+                try:
+                    r = fn(w.calls)
+                except ZeroDivisionError:
+                    got = {s: list(e) for s, e in w.streams.items() if e}
+                    return ("raised-call", "ZeroDivisionError", tuple(sorted((s, tuple(map(_canon, e))) for s, e in got.items())))
                 got = {s: list(e) for s, e in w.streams.items() if e}
                 return ("result", r, tuple(sorted((s, tuple(map(_canon, e))) for s, e in got.items())))
         except BaseException as e:
@@ -200,29 +247,19 @@ class System:
         slot_of = {}
         for s, p in w.probes.items():
             ol = getattr(p, "_ol", p)
-            for h in ol.handlers:
+            for h in getattr(ol, "handlers", ()):
                 slot_of[id(h)] = s
         hc = None if cur is None else tuple(slot_of.get(id(acc), "?") for _, acc in cur.handler_pairs)
-        toks = []
-        for s, p in sorted(w.probes.items()):
-            ol = getattr(p, "_ol", p)
-            tok = getattr(ol, "reset", None)
-            old = getattr(tok, "old_value", None)
-            if old is None or str(old) == "<Token.MISSING>" or "MISSING" in repr(old):
-                ov = None
-            else:
-                ov = tuple(slot_of.get(id(acc), "?") for _, acc in old.handler_pairs) if hasattr(old, "handler_pairs") else repr(old)
-            toks.append((s, ov))
         fns = []
-        for name in ("f", "g"):
+        for name in ("f", "g", "h"):
             fn = w.ns[name]
             st = getattr(fn, "__ptera_stack__", None)
             if st is None:
-                fns.append((name, None))
+                fns.append((name, None, fn.__code__ is w.orig[name]))
             else:
                 caps = tuple(sorted((str(c), n) for c, n in st.captures.items() if n))
                 fns.append((name, st.instrument_count, caps, fn.__code__ is w.orig[name]))
-        return (hc, tuple(toks), tuple(fns), len(probe_mod.global_probes))
+        return (hc, tuple(sorted(w.probes)), tuple(fns), len(probe_mod.global_probes))
 
     def invariant(self, w, model):
         from ptera.overlay import HandlerCollection
@@ -231,9 +268,8 @@ class System:
         act, wstack, calls = model
         probs = []
         active = list(act) + list(wstack)
-        nf = sum(1 for s in active if s in (0, 1, 2, 3, 5))
-        ng = sum(1 for s in active if s == 2)
-        for name, n in (("f", nf), ("g", ng)):
+        for name in ("f", "g"):
+            n = sum(1 for s in active if name in SLOTS[s][3])
             fn = w.ns[name]
             st = getattr(fn, "__ptera_stack__", None)
             cnt = st.instrument_count if st is not None else 0
@@ -244,6 +280,8 @@ class System:
                     probs.append(f"{name} does not run its original code although no probe is active on it")
                 if st is not None and any(v for v in st.captures.values()):
                     probs.append(f"{name}: capture counters left over {dict((str(k), v) for k, v in st.captures.items() if v)}")
+        if 9 not in active and w.h.__code__ is not w.orig["h"]:
+            probs.append("the tooled function h does not run its tooled code although no probe is active on it")
         if not active:
             if HandlerCollection.current.get() is not None:
                 probs.append("a handler collection is still installed although nothing is active")
@@ -256,7 +294,7 @@ class System:
                     probs.append(f"module global {k!r} was added")
                 elif w.globals_before[k] is not v:
                     probs.append(f"module global {k!r} was changed")
-        nprobes = sum(1 for s in active if s != 4)
+        nprobes = sum(1 for s in active if SLOTS[s][0] in ("probe", "reduce", "raising-total"))
         if len(probe_mod.global_probes) != nprobes:
             probs.append(f"global_probes has {len(probe_mod.global_probes)} entries, {nprobes} probes are active")
         return probs
@@ -275,8 +313,9 @@ def _canon(ev):
 
 
 def units(tier):
-    # the search is sharded by its first two operations (each shard deduplicates its own states)
-    return [("bfs", True, h) for h in H.first_ops(System(True), 2)]
+    # one search per world (subset of slots), sharded by its first two operations (each shard
+    # deduplicates its own states)
+    return [("bfs", wname, h) for wname in WORLDS for h in H.first_ops(System(wname), 2)]
 
 
 def classify(kind, hist, detail):
@@ -301,7 +340,7 @@ def classify(kind, hist, detail):
 
 def work(unit, tier):
     part = new_partial()
-    system = System(with_bad=unit[1])
+    system = System(unit[1])
     res = H.explore(system, BOUNDS[tier]["depth"], audit_depth=BOUNDS[tier].get("merge_audit_depth", 0), prefix=unit[2])
     part["cases"] = res.states
     part["steps"] = res.transitions
@@ -320,7 +359,7 @@ def work(unit, tier):
     listed = open_findings(PROP)
     for kind, hist, detail in res.violations:
         tags = classify(kind, hist, detail)
-        v = violation(PROP, kind, {"history": [list(o) for o in hist]}, detail, tags=tags)
+        v = violation(PROP, kind, {"history": [list(o) for o in hist], "world": unit[1]}, f"[{unit[1]}] {detail}", tags=tags)
         fid = None
         for e in listed.values():
             if all(t in tags for t in e["match"]["tags"]) and not any(t in tags for t in e["match"].get("not_tags", [])):
@@ -335,7 +374,7 @@ def work(unit, tier):
 
 
 def replay(case):
-    system = System()
+    system = System(case.get("world", "W1"))
     hist = tuple(tuple(o) for o in case["history"])
     w, m, problem, at = H.run_history(system, hist)
     system.close(w)
